@@ -334,6 +334,8 @@ def is_sym(a):
     """Does the value contain symbolic data?"""
     if isinstance(a, SymArray) or is_symscalar(a) or isinstance(a, SB):
         return True
+    if getattr(a, '_is_larr', False):           # symbolic-length array (symnp/larr.py)
+        return True
     if isinstance(a, np.ndarray):
         return a.dtype == object and a.size > 0 and any(
             is_symscalar(v) or isinstance(v, SB) for v in a.ravel()[:8])
